@@ -126,7 +126,28 @@ def start_states(kind, args, alpha, depth):
                     seen[c2] = seen[c] + [ev]
                     nxt.append(c2)
         frontier = nxt
+    if kind in ("linear", "hh"):
+        # boundary start states: a counter that an n-gram WINDOW maps to is at, or one/two below,
+        # the 2^32-1 ceiling, so that a batch / n-gram call crosses the ceiling in mid-call and
+        # "what was actually applied" differs from "what was asked for" (n_added bookkeeping)
+        ab = ngram_letters(alpha)
+        top = 2**32 - 1
+        for evl in ([("add", (ab[0], top))], [("add", (ab[0], top - 2))],
+                    [("add", (ab[0] + ab[1], top - 1))], [("add", (ab[1], top)), ("add", (ab[0], 1))],
+                    [("add", (alpha[0], top - 1))], [("add", (alpha[1], top))]):
+            restore(sk, c0)
+            run_path(sk, evl)
+            c2 = capture(sk)
+            if c2 not in seen:
+                seen[c2] = list(evl)
     return [(v, k) for k, v in seen.items()]
+
+
+def ngram_letters(alpha):
+    ab = [alpha[0][:1] or b"a", b"b", b"\x00"]
+    if ab[0] in (b"b", b"\x00"):
+        ab[0] = b"a"
+    return ab
 
 
 def diagrams(kind, alpha, tier):
@@ -186,9 +207,7 @@ def diagrams(kind, alpha, tier):
         for v in (0, 1, 2, 3, 7) + sat + ((10**4,) if big and k == A[0] else ()):
             yield ("M", [("add", (k, v))], [("add", (k,))] * (1 if kind == "hll" else v))
     # N
-    ab = [A[0][:1] or b"a", b"b", b"\x00"]
-    if ab[0] in (b"b", b"\x00"):
-        ab[0] = b"a"
+    ab = ngram_letters(A)
     maxlen = 5
     for L in range(0, maxlen + 1):
         for tup in itertools.product(ab, repeat=L):
